@@ -23,14 +23,36 @@ open DI.Py DI.Gen DI.Heap
 
 /-! ### the rules, as equations for ALL terms / environments -/
 
-/-- `x.copy()` is fresh whatever `x` is. -/
-theorem prov_copy (env : Env) (t : Term) : provIn env (Term.app ".copy" [t]) = .fresh := rfl
-theorem prov_take (env : Env) (args : List Term) : provIn env (Term.app "np.take" args) = .fresh := rfl
-theorem prov_delete (env : Env) (args : List Term) : provIn env (Term.app "np.delete" args) = .fresh := rfl
-theorem prov_concatenate (env : Env) (args : List Term) : provIn env (Term.app "np.concatenate" args) = .fresh := rfl
-theorem prov_where (env : Env) (args : List Term) : provIn env (Term.app "np.where" args) = .fresh := rfl
-theorem prov_zeros_like (env : Env) (args : List Term) : provIn env (Term.app "np.zeros_like" args) = .fresh := rfl
-theorem prov_astype (env : Env) (args : List Term) : provIn env (Term.app ".astype" args) = .fresh := rfl
+/-- `x.copy()` is fresh whatever `x` is (`x` an expression, not a `copy=` keyword). -/
+theorem prov_copy (env : Env) (t : Term) (h : mayNotCopy [t] = false) : provIn env (Term.app ".copy" [t]) = .fresh := by
+  unfold provIn; unfold provM; simp [h, wrap, allocHeads]
+theorem prov_take (env : Env) (args : List Term) (h : mayNotCopy args = false) : provIn env (Term.app "np.take" args) = .fresh := by
+  unfold provIn; unfold provM; simp [h, wrap, allocHeads]
+theorem prov_delete (env : Env) (args : List Term) (h : mayNotCopy args = false) : provIn env (Term.app "np.delete" args) = .fresh := by
+  unfold provIn; unfold provM; simp [h, wrap, allocHeads]
+theorem prov_concatenate (env : Env) (args : List Term) (h : mayNotCopy args = false) : provIn env (Term.app "np.concatenate" args) = .fresh := by
+  unfold provIn; unfold provM; simp [h, wrap, allocHeads]
+theorem prov_where (env : Env) (args : List Term) (h : mayNotCopy args = false) : provIn env (Term.app "np.where" args) = .fresh := by
+  unfold provIn; unfold provM; simp [h, wrap, allocHeads]
+theorem prov_zeros_like (env : Env) (args : List Term) (h : mayNotCopy args = false) : provIn env (Term.app "np.zeros_like" args) = .fresh := by
+  unfold provIn; unfold provM; simp [h, wrap, allocHeads]
+/-- `x.astype(…)` WITHOUT a `copy=` keyword (or with `copy=True`) is fresh … -/
+theorem prov_astype (env : Env) (args : List Term) (h : mayNotCopy args = false) : provIn env (Term.app ".astype" args) = .fresh := by
+  unfold provIn; unfold provM; simp [h, wrap, allocHeads]
+
+/-- a trailing `copy=False` is seen whatever stands before it. -/
+theorem mayNotCopy_false_kw (l : List Term) : mayNotCopy (l ++ [.app "=copy" [.sym "False"]]) = true := by
+  fun_induction mayNotCopy l <;> simp_all [mayNotCopy]
+
+/-- … and `x.astype(dtype, copy=False)` is NOT: it has the provenance of `x` (NumPy returns `x` itself when it already has
+    the dtype) — the receiver's, if `x` is the receiver. -/
+theorem prov_astype_nocopy (env : Env) (x d : Term) :
+    provIn env (Term.app ".astype" [x, d, .app "=copy" [.sym "False"]]) = provIn env x := by
+  have h := mayNotCopy_false_kw [x, d]
+  simp only [List.cons_append, List.nil_append] at h
+  unfold provIn
+  conv => lhs; unfold provM
+  simp [h, wrap, allocHeads, provArg]
 
 /-- an element / a view is never classified fresh. -/
 theorem elemOf_ne_fresh (p : Prov) : elemOf p ≠ .fresh := by cases p <;> simp [elemOf]
